@@ -18,7 +18,35 @@ TOKENS = [b"syntax", b"=", b"\"proto3\"", b";", b"package", b"a.b", b"import", b
           b"repeated", b"enum", b"E", b"A", b"0", b"oneof", b"o", b"map", b"<", b">", b",", b"string", b"service", b"S", b"rpc", b"returns", b"stream", b"extensions",
           b"to", b"max", b"reserved", b"extend", b"optional", b"group", b"G"]
 
+def with_empty_statements(rng, toks, only):
+    """inserts extra `;` (empty statements) after `{`, `;` and `}`; with only=True every declaration of some bodies is
+    replaced by empty statements (a body that consists solely of empty statements)"""
+    out = []
+    depth = 0
+    i = 0
+    n = len(toks)
+    while i < n:
+        t = toks[i]
+        out.append(t)
+        if t == b"{":
+            depth += 1
+            if only and depth >= 1 and rng.chance(1, 2) and b"{" not in toks[i + 1:toks.index(b"}", i)] and toks[i - 1] not in (b"=",):
+                # drop the body's declarations, keep one to three empty statements
+                j = toks.index(b"}", i)
+                out += [b";"] * rng.range(1, 3)
+                i = j
+                continue
+        if t == b"}":
+            depth -= 1
+        if t in (b"{", b";", b"}") and rng.chance(1, 4):
+            out += [b";"] * rng.range(1, 2)
+        i += 1
+    return out
+
+
 def render(rng, toks, adversarial):
+    if rng.chance(1, 3):
+        toks = with_empty_statements(rng, list(toks), rng.chance(1, 2))
     out = [rng.choice([b"", b"", b"\xef\xbb\xbf"]) if adversarial else b""]
     for t in toks:
         k = rng.range(0, 2) if adversarial else rng.choice([0, 0, 1])
@@ -39,7 +67,9 @@ def run(ctx):
         ins.append(open(p, "rb").read())
     for _ in range(ctx.budget(1200, 30000)):
         ins.append(render(rng, rng.choice(TEMPLATES), rng.chance(2, 3)))
-    ins += [b"", b"\xef\xbb\xbf", b"// only a comment", b"\n\n", b"/* c */", b"\xef\xbb\xbfsyntax = \"proto3\";", b"syntax=\"proto3\";message A{}"]
+    ins += [b"message Foo { ; }", b"message Foo { ; ; /* c */ ; }", b"enum E { ; A = 0; }", b"service S { ; }", b"service S { rpc R(M) returns (M) { ; } }",
+            b"message M { oneof o { int32 a = 1; ; } }", b"; ; message A {} ;", b"syntax = \"proto3\"; ; message A { ; int32 x = 1; ; }",
+            b"", b"\xef\xbb\xbf", b"// only a comment", b"\n\n", b"/* c */", b"\xef\xbb\xbfsyntax = \"proto3\";", b"syntax=\"proto3\";message A{}"]
     ctx.rule = ("the repository's testdata files + accepted programs rendered from %d token templates with random whitespace (space, tab, CR LF, FF, VT, "
                 "blank lines), line / block / doc comments incl. multi-byte characters between any two tokens, optional BOM, missing final newline; "
                 "each is parsed, the suite's printAST walk is replayed and compared with the bytes; the lexer's item list is compared with the "
@@ -65,12 +95,15 @@ def run(ctx):
                 ctx.violation("ast-print-differs-from-source", "printing the AST's tokens with their comments and whitespace does not reproduce the source",
                               dict(rep, first_difference_at=k, printed_around=got[max(0, k - 20):k + 20].decode("latin1"),
                                    source_around=want[max(0, k - 20):k + 20].decode("latin1")))
-        if "panic" not in lo and "crash" not in lo and len(d) <= 6000:
+        # the model is evaluated on a bounded sample in the quick tier (reading long byte lists dominates coqc's time);
+        # every input still goes through the round-trip oracle above
+        if "panic" not in lo and "crash" not in lo and len(d) <= ctx.budget(2500, 8000) and len(terms) < ctx.budget(350, 100000):
             terms.append(coq_lex_case(d, lo))
             meta.append((d, lo))
     ctx.extra["accepted_inputs"] = acc
     ctx.sample({"text": ins[20].decode("latin1")[:300]}); ctx.sample({"text": ins[-9].decode("latin1")[:300]})
-    mism, err = coq_eval_mismatches("cases_C11", HEADER, terms, "lex_chk", shard_size=200)
+    ctx.extra["model_evaluated_cases"] = len(terms)
+    mism, err = coq_eval_mismatches("cases_C11", HEADER, terms, "lex_chk", shard_size=25)
     if err:
         raise RuntimeError(err)
     for k in mism:
